@@ -66,6 +66,8 @@ ALPHABETS = [
     ('nonascii-wide', ['\u03a9', '\u65e5\u672c', '\u0416', '\u0161', '\u20ac', 'e\u0301', '\ud55c', '\u21350',
                        '\u03b1 \u03b2', '\u2192', '\U0001f600', '\u01c5']),
     ('inner-ws', ['a b', 'a  b', 'a\tb', 'a b c', 'x y', 'p \t q', 'aa bb', 'a   b', 'b a', 'y x', 'q\tp', 'c  d']),
+    # characters that str.splitlines() treats as line boundaries but '\n'-based parsers do not (inner positions are representable everywhere)
+    ('line-seps', ['a\x0bb', 'a\x0cb', 'a\x1cb', 'a\x1db', 'a\x1eb', 'a\x85b', 'a\u2028b', 'a\u2029b', 'c\x0cd', 'c\u2028d', 'e\x1cf', 'e\x85f']),
     # representable in csv and python-literal only
     ('csv-only', ['a,b', '"', 'a\nb', '', ' lead', 'trail ', 'a\r\nb', 'a\rb', '\n', ',', '""', ' ', '\t',
                   "it's", '"quoted"', 'a"b', '\r', ',,', '"\n"']),
